@@ -21,8 +21,25 @@ var c11RTOs = []time.Duration{1, time.Millisecond, 300 * time.Millisecond, time.
 // c11Walk drives one transaction along its whole schedule, probing just before / at / just after every deadline,
 // with one optional interfering event at position pos. Everything is judged on the write log with virtual timestamps.
 func c11Walk(c *core.Ctx, size int, rto time.Duration, noRetransmit bool, interfere string, pos int) {
+	c11WalkAt(c, size, rto, noRetransmit, interfere, pos, time.Time{}, false)
+}
+
+// c11Epochs: instants for virtual time zero. The schedule is a matter of differences; where on the time line it lies -
+// also astride the limits of a 64-bit nanosecond count (1677-09-21, 2262-04-11) or in year 1 - changes nothing.
+var c11Epochs = []time.Time{ //nolint:gochecknoglobals
+	time.Unix(0, 1<<63-1).Add(-5*time.Second - 500*time.Millisecond), // the first deadline crosses 2262-04-11T23:47:16.854775807Z
+	time.Unix(0, 1<<63-1).Add(-5*time.Second - 1),
+	time.Unix(0, 1<<63-1).Add(-9 * time.Second),
+	time.Unix(0, -1<<63).Add(-6 * time.Second),
+	time.Date(1, 1, 1, 0, 0, 0, 0, time.UTC),
+	time.Date(2500, 6, 1, 0, 0, 0, 0, time.UTC),
+	time.Unix(0, 0).Add(-5 * time.Second),
+	time.Date(1969, 12, 31, 23, 59, 50, 0, time.UTC),
+}
+
+func c11WalkAt(c *core.Ctx, size int, rto time.Duration, noRetransmit bool, interfere string, pos int, epoch time.Time, staleHeaderID bool) {
 	c.Eval(1)
-	o := rigOpts{rto: rto, noRetransmit: noRetransmit}
+	o := rigOpts{rto: rto, noRetransmit: noRetransmit, epoch: epoch}
 	r, err := newRig(o)
 	if err != nil {
 		c.Violate("newclient", "newclient", err.Error())
@@ -31,11 +48,24 @@ func c11Walk(c *core.Ctx, size int, rto time.Duration, noRetransmit bool, interf
 	}
 	n := r.maxAttempts()
 	name := fmt.Sprintf("size=%d rto=%v retransmissions=%d interfere=%s@%d", size, rto, n, interfere, pos)
+	if !epoch.IsZero() {
+		name += " epoch=" + epoch.UTC().Format(time.RFC3339Nano)
+	}
+	if staleHeaderID {
+		name += " header-id-differs-from-field"
+	}
 	fail := func(kind, msg string) {
 		c.Violate(kind, kind, map[string]interface{}{"walk": name, "problem": msg, "ledger": r.describe()})
 	}
 	id := seqTID(1)
 	t := r.newTx("Start", id, size)
+	if staleHeaderID {
+		// the caller assigned m.TransactionID without re-encoding: the raw header still carries other bytes. What is
+		// written is the message as it was, byte for byte.
+		for k := 8; k < 20; k++ {
+			t.msg.Raw[k] ^= 0xA5
+		}
+	}
 	r.w.SetNow(int64(5 * time.Second))
 	if err := r.start(t); err != nil {
 		fail("start-failed", err.Error())
@@ -88,6 +118,12 @@ func c11Walk(c *core.Ctx, size int, rto time.Duration, noRetransmit bool, interf
 			case "close":
 				_ = r.close()
 				ended = "closed"
+			case "write-error":
+				// the k-th retransmission fails (the error's shape rotates: plain, timeout net.Error, *net.OpError, ...):
+				// the failed attempt ends the transaction with that error, nothing is written afterwards
+				if k < n {
+					r.conn.FailNext(1)
+				}
 			case "reuse":
 				// the caller rebuilds and reuses its message object for something else
 				copy(t.msg.Raw, bytes.Repeat([]byte{0xEE}, len(t.msg.Raw)))
@@ -109,10 +145,14 @@ func c11Walk(c *core.Ctx, size int, rto time.Duration, noRetransmit bool, interf
 			return
 		}
 		r.tickAt(deadline + 1)
-		if k < n {
+		switch {
+		case k < n && pos == k && interfere == "write-error":
+			expectWrites++ // the failed attempt is on the log
+			ended = "write-error"
+		case k < n:
 			expectWrites++
 			last = deadline + 1
-		} else {
+		default:
 			ended = "timeout"
 		}
 		if !check(fmt.Sprintf("tick just after deadline %d", k)) {
@@ -146,7 +186,7 @@ func c11Walk(c *core.Ctx, size int, rto time.Duration, noRetransmit bool, interf
 }
 
 func c11(c *core.Ctx) {
-	interferes := []string{"none", "response", "setrto", "close", "reuse"}
+	interferes := []string{"none", "response", "setrto", "close", "reuse", "write-error"}
 	type walk struct {
 		size      int
 		rto       time.Duration
@@ -179,7 +219,23 @@ func c11(c *core.Ctx) {
 		w := plan[i]
 		c11Walk(c, w.size, w.rto, w.noRetrans, w.interfere, w.pos)
 	})
-	c.MarkExhaustive("schedule walks: 12 sizes x 4 RTOs x {7,0} retransmissions x 5 interferences x every position")
+	c.MarkExhaustive("schedule walks: 12 sizes x 4 RTOs x {7,0} retransmissions x 6 interferences x every position")
+	// the same walks somewhere else on the time line, and with a request whose raw header id differs from its field
+	c.Section("schedule-walks-epochs", int64(len(c11Epochs)*2*len(interferes)*2), func(i int64, r *gen.Rand) {
+		k := int(i)
+		ep := c11Epochs[k%len(c11Epochs)]
+		k /= len(c11Epochs)
+		nr := k%2 == 1
+		k /= 2
+		in := interferes[k%len(interferes)]
+		stale := k/len(interferes) == 1
+		n := 7
+		if nr {
+			n = 0
+		}
+		rto := []time.Duration{time.Second, 300 * time.Millisecond, time.Hour, 3 * time.Second}[int(i)%4]
+		c11WalkAt(c, []int{20, 28, 1500, 2049}[int(i/3)%4], rto, nr, in, r.Intn(n+1), ep, stale)
+	})
 	// the library's own ticker collector must collect at the injected clock's time, not at wall time: virtual time is
 	// held decades before the wall clock, ticks fire every millisecond of real time, nothing may be retransmitted
 	c.SectionSerial("ticker-collector-with-virtual-clock", 3, func(i int64, _ *gen.Rand) {
